@@ -70,10 +70,10 @@ func vfAnswerBytes(a vfAnswer) []byte {
 
 type vfC10History struct {
 	mu        sync.Mutex
-	sendErr   map[int][]error          // per name: result of each sendRequest attempt (in attempt order per sender)
-	callbacks map[string][]vfC10CB     // per attempt id
-	attempts  map[string]int           // attempt id -> name
-	sendRes   map[string]error         // attempt id -> sendRequest result
+	sendErr   map[int][]error      // per name: result of each sendRequest attempt (in attempt order per sender)
+	callbacks map[string][]vfC10CB // per attempt id
+	attempts  map[string]int       // attempt id -> name
+	sendRes   map[string]error     // attempt id -> sendRequest result
 	order     []string
 }
 
